@@ -77,7 +77,12 @@ function invoke (exportsObj, name, handler) {
     }
   } finally { Error.prepareStackTrace = saved; Error.stackTraceLimit = savedLimit }
 }
-function parseStackString (s) {
+// `n` = number of frames of the trace: they are the last n `at ...` lines (the message may contain such lines too)
+function parseStackString (s, n) {
+  const all = parseStackLines(s)
+  return (n !== undefined && all.length > n) ? all.slice(all.length - n) : all
+}
+function parseStackLines (s) {
   const out = []
   for (const line of String(s).split('\n')) {
     if (!/^\s*at /.test(line)) continue
@@ -169,7 +174,7 @@ async function run (req) {
         }
         // string path
         if (typeof gotStr.stack !== 'string') { problems.push({ step: i, kind: 'string-stack-not-string' }); continue }
-        const S = parseStackString(gotStr.stack)
+        const S = parseStackString(gotStr.stack, E.length)
         if (S.length !== E.length) { problems.push({ step: i, kind: 'frame-count', mode: 'string', expected: E.length, got: S.length, stack: gotStr.stack.slice(0, 600) }); continue }
         for (let k = 0; k < E.length; k++) {
           const e = E[k]; const g = S[k]
